@@ -87,6 +87,23 @@ Grad(e, v) ==
     [] e.op \in Unary -> RScaleSeq(DFn(e.op, Eval(e.a[1], v)), Grad(e.a[1], v))
     [] e.op = "kn"    -> RScaleSeq(DKn(e.n, Eval(e.a[1], v)), Grad(e.a[1], v))
 
+\* ------------------------------------------------------------------ domain of definition over the reals
+\* is every function of the tree applied inside its (real) domain at v - otherwise the result "is not a number"
+RECURSIVE InDom(_, _)
+InDom(e, v) ==
+  CASE e.op \in {"var", "const"} -> TRUE
+    [] e.op \in {"add", "sub", "mul"} -> InDom(e.a[1], v) /\ InDom(e.a[2], v)
+    [] e.op = "div" -> InDom(e.a[1], v) /\ InDom(e.a[2], v) /\ Eval(e.a[2], v) # "0"
+    [] e.op = "pow" -> InDom(e.a[1], v) /\ InDom(e.a[2], v) /\
+                       (IF IsConst(e.a[2]) /\ RIsInt(e.a[2].v) THEN (RLe("0", e.a[2].v) \/ Eval(e.a[1], v) # "0")
+                        ELSE RLt("0", Eval(e.a[1], v)))
+    [] e.op \in {"sqrt"} -> InDom(e.a[1], v) /\ RLt("0", Eval(e.a[1], v))
+    [] e.op = "log" -> InDom(e.a[1], v) /\ RLt("0", Eval(e.a[1], v))
+    [] e.op \in {"arcsin", "arccos", "arctanh"} -> InDom(e.a[1], v) /\ RLt(RAbs(Eval(e.a[1], v)), "1")
+    [] e.op = "arccosh" -> InDom(e.a[1], v) /\ RLt("1", Eval(e.a[1], v))
+    [] e.op = "kn" -> InDom(e.a[1], v) /\ RLt("0", Eval(e.a[1], v))
+    [] OTHER -> InDom(e.a[1], v)
+
 \* ------------------------------------------------------------------ rounding scales
 \* the same recursions with absolute values at every node: upper bounds on the magnitude of the terms that
 \* enter the value / the gradient before cancellations.  Used only to scale absolute tolerances.
